@@ -3,6 +3,7 @@ package props
 import (
 	"encoding/json"
 	"fmt"
+	"strconv"
 	"strings"
 
 	"github.com/jf-tech/omniparser"
@@ -737,6 +738,93 @@ func c06Run(c *core.Ctx) {
 				want = append(want, []*string{sp(slice(ls[0], 2, 8)), sp(slice(ls[1], 3, 6)), sp(slice(ls[2], 2, 9))})
 			}
 			emit(c06Case{Family: fmt.Sprintf("%s|3-line envelopes, line length %d, input spans 3 buffers", format, L), Schema: st, Input: []byte(b.String()), Want: want}, nil, format+"-rows3-sweep")
+		}
+		// multi-row envelopes x which rows the declared columns live on x empty lines at every position:
+		// two envelopes of R rows, every non-empty subset of the column kinds (old reader: no
+		// line_pattern = first row, or ^k; fixedlength2: line_index k or line_pattern ^k), and before
+		// every row and after the last one nothing / an empty LF line / an empty CR LF line. Empty lines
+		// are ignored wherever they are, also after the row that resolved the envelope's last column.
+		for R := 2; R <= 3; R++ {
+			type colKind struct{ decl, row string } // row: "1".."3"
+			var kinds []colKind
+			if format == "fixed-length" {
+				kinds = append(kinds, colKind{``, "1"})
+				for k := 1; k <= R; k++ {
+					kinds = append(kinds, colKind{fmt.Sprintf(`,"line_pattern":"^%d"`, k), strconv.Itoa(k)})
+				}
+			} else {
+				for k := 1; k <= R; k++ {
+					kinds = append(kinds, colKind{fmt.Sprintf(`,"line_index":%d`, k), strconv.Itoa(k)})
+				}
+				kinds = append(kinds, colKind{`,"line_pattern":"^1"`, "1"}, colKind{fmt.Sprintf(`,"line_pattern":"^%d"`, R), strconv.Itoa(R)})
+			}
+			gapAlphabet := []string{"", "\n", "\r\n"}
+			if c.Quick() && R == 3 {
+				gapAlphabet = []string{"", "\n"}
+			}
+			for mask := 1; mask < 1<<len(kinds); mask++ {
+				var cols, outs []string
+				var rowsOf []string
+				for k, kd := range kinds {
+					if mask&(1<<k) == 0 {
+						continue
+					}
+					n := len(cols) + 1
+					cols = append(cols, fmt.Sprintf(`{"name":"k%d","start_pos":2,"length":3%s}`, n, kd.decl))
+					outs = append(outs, fmt.Sprintf(`"c%d":{"xpath":"k%d","no_trim":true,"keep_empty_or_null":true}`, n, n))
+					rowsOf = append(rowsOf, kd.row)
+				}
+				env := fmt.Sprintf(`{"by_rows":%d,"columns":[%s]}`, R, strings.Join(cols, ","))
+				if format == "fixedlength2" {
+					env = fmt.Sprintf(`{"rows":%d,"columns":[%s]}`, R, strings.Join(cols, ","))
+				}
+				st := `{` + hdr(format) + `,"file_declaration":{"envelopes":[` + env + `]},"transform_declarations":{"FINAL_OUTPUT":{"object":{` + strings.Join(outs, ",") + `}}}}`
+				idx++
+				if !c.Mine(idx) {
+					continue
+				}
+				sc, err, _ := hx.NewSchema("s", st)
+				if err != nil {
+					c.HarnessError("multi-row schema rejected: " + err.Error() + "\n" + st)
+					continue
+				}
+				var want [][]*string
+				for e := 0; e < 2; e++ {
+					var rec []*string
+					for _, row := range rowsOf {
+						rec = append(rec, sp(strings.Repeat(string(rune('A'+e*3+int(row[0]-'1'))), 3)))
+					}
+					want = append(want, rec)
+				}
+				gen.Sequences(len(gapAlphabet), 2*R+1, func(seq []int) bool {
+					if len(seq) != 2*R+1 {
+						return true
+					}
+					var b strings.Builder
+					for e := 0; e < 2; e++ {
+						for k := 0; k < R; k++ {
+							b.WriteString(gapAlphabet[seq[e*R+k]])
+							b.WriteString(strconv.Itoa(k+1) + strings.Repeat(string(rune('A'+e*3+k)), 3) + "\n")
+						}
+					}
+					b.WriteString(gapAlphabet[seq[2*R]])
+					cs := c06Case{Family: fmt.Sprintf("%s|%d-row envelopes, columns on rows %v, empty lines at every position", format, R, rowsOf), Schema: st, Input: []byte(b.String()), Want: want}
+					c.Begin(func() interface{} { return cs })
+					sig, detail := c06Check(cs, sc)
+					c.Eval(format + "-multirow-empty-lines")
+					c.Count("multirow_empty_line_runs", 1)
+					switch {
+					case strings.HasPrefix(sig, "harness:"):
+						c.HarnessError(sig + ": " + detail)
+					case sig != "":
+						c.Violation(sig+":multi-row-envelope-with-empty-lines", detail, cs, func() string { s, _ := c06Check(cs, nil); return s + ":multi-row-envelope-with-empty-lines" })
+					}
+					return true
+				})
+				if c.TimeUp() {
+					return
+				}
+			}
 		}
 		for _, base := range []int{4090, 8190} {
 			for n := base; n <= base+10; n++ {
